@@ -567,6 +567,7 @@ func ruleCommitFollower() *Rule {
 				CmpAtom("leaderCommit?commitIndex", "p0.LeaderCommit", "r.commitIndex"),
 				BoolAtom("success", "p1.Success"),
 				appended,
+				CmpAtom("prev+len?commitIndex", "(len(p0.Entries) + p0.PrevLogIndex)", "r.commitIndex"),
 			)
 			a := NewAnalysis(p, sp)
 			a.Hook = func(a *Analysis, f *Frame, in ssa.Instruction, st State) State {
@@ -589,7 +590,13 @@ func ruleCommitFollower() *Rule {
 			for _, o := range a.SortedObs() {
 				ob := Obligation{Rule: id, Construct: o.Key, Pos: o.Pos, Facts: []string{"value: " + o.Extra["value"], "form: " + o.Extra["form"]}}
 				bad := sp.Where(o.State, func(pt int) bool {
-					return !(sp.Val(pt, 0) == GT && sp.Val(pt, 1) == 1 && sp.Val(pt, 2) == 1)
+					if !(sp.Val(pt, 0) == GT && sp.Val(pt, 1) == 1 && sp.Val(pt, 2) == 1) {
+						return true
+					}
+					// Min(LeaderCommit, B) > commitIndex needs B > commitIndex as well. For B = LastIndex() that is an
+					// invariant of the node (the commit index never exceeds the log); for B = prev+len(entries) it is
+					// not (a short or old request of the same leader) and must be tested.
+					return o.Extra["form"] == "prev+len(entries)" && sp.Val(pt, 3) != GT
 				})
 				switch {
 				case o.Extra["form"] == "":
@@ -597,8 +604,8 @@ func ruleCommitFollower() *Rule {
 					ob.Detail = "follower commit index is not bounded by the entries verified to match the leader: value " + o.Extra["value"] + " is not Min(request.LeaderCommit, last index after append | prev+len(entries))"
 				case !bad.IsEmpty():
 					ob.Verdict = Violated
-					ob.Detail = "commit index written without (LeaderCommit > commitIndex ∧ request accepted ∧ entries appended): e.g. {" + sp.Project(bad, 0, 1, 2)[0] + "}"
-					ob.Facts = append(ob.Facts, sp.Project(bad, 0, 1, 2)...)
+					ob.Detail = "commit index written without (LeaderCommit > commitIndex ∧ request accepted ∧ entries appended ∧, for the bound prev+len(entries), that bound > commitIndex): the commit index can move backwards, e.g. {" + sp.Project(bad, 0, 1, 2, 3)[0] + "}"
+					ob.Facts = append(ob.Facts, sp.Project(bad, 0, 1, 2, 3)...)
 				default:
 					ob.Verdict, ob.Detail = Discharged, "Min(LeaderCommit, "+o.Extra["form"]+"), monotone, after accept and append"
 				}
